@@ -34,6 +34,7 @@ def run(ctx):
     r3_propagation(chk, fx)
     r4_session_recv(chk, fx)
     r5_no_self_deadlock(chk, fx)
+    r6_hello_exchange_fails_fast(chk, fx)
 
 
 def r5_no_self_deadlock(chk, fx):
@@ -42,6 +43,29 @@ def r5_no_self_deadlock(chk, fx):
     from .c15 import _Rename
     from . import c05
     c05.r4_r5_locks(_Rename(chk, "C05/R", "C07/R5:C05/R"), fx)
+
+
+def r6_hello_exchange_fails_fast(chk, fx):
+    """Session establishment is the first place a dead peer shows: the client hello cannot be written, or the server hello never comes.
+    The two halves run concurrently (C12/R5); the exchange must end as soon as *either* fails — with `join!` (wait for both, then look)
+    a failed send is reported only when the receive completes, which on a half-closed transport is never.  The macro that joins the two
+    futures in Session::new (or the helper it awaits) is try_join!, not join!."""
+    b = fx.user_coroutine("netconf::session::Session::<T>::new")
+    bodies = [b]
+    for c in b.calls():
+        tgt = None if c.macro else (c.rdef if (c.rdef or "").startswith("netconf::session::") else c.defn if (c.defn or "").startswith("netconf::session::") else None)
+        if tgt and "::{closure" not in tgt:
+            try:
+                bodies.append(fx.user_coroutine(tgt))
+            except F.AnchorLost:
+                pass
+    joined = sorted({(c.macro or "").split("::")[-1] for body in bodies for c in body.calls() if (c.macro or "").split("::")[-1] in ("join", "try_join")})
+    if not joined:
+        chk.instance("C07/R6", "the hello exchange is not joined by a tokio join macro: not decided here", b.name, None, holds=True)
+        return
+    chk.instance("C07/R6", "the hello exchange ends with the first failure of either half (joined by %s!)" % "/".join(joined), b.name, None, holds=joined == ["try_join"],
+                 key="C07/R6 Session::new hello-exchange-waits-for-both-halves",
+                 detail=None if joined == ["try_join"] else "join! completes only when both futures have: a failed send of the client hello is not reported while the receive is pending")
 
 
 def zero_edges(b, count_locals):
@@ -160,7 +184,12 @@ def r1_stream_paths(chk, fx, kind, b):
     # a path that goes round again without having decided the count is fine when the zero case was split off before it (`match n { 0 =>
     # .., len => .. }`: the second arm says nothing about n, the first took n = 0 away); it is the defect when no path handles zero
     for (p, at) in undecided:
-        chk.instance("C07/R1", "%s: byte count returned by the read is compared with zero" % kind, b.name, at, holds=p.end != "iter-end" or n_zero > 0,
+        # .. provided nothing else was decided between the read and going round (a flag tested before the count — "still in the preamble:
+        # continue" — takes the zero case along)
+        keys = list(p.assume)
+        rk = [i for i, k in enumerate(keys) if k == "variant:async-ready(«READ»).await"]
+        later = keys[rk[-1] + 1:] if rk else keys
+        chk.instance("C07/R1", "%s: byte count returned by the read is compared with zero" % kind, b.name, at, holds=p.end != "iter-end" or (n_zero > 0 and not later),
                      key="C07/R1 %s byte-count-unchecked" % fn,
                      detail="at end of stream read_buf returns Ok(0) for ever: the loop spins and never returns an error")
     chk.instance("C07/R1", "%s: a zero-byte read is handled on some path (%d)" % (kind, n_zero), b.name, None, holds=n_zero > 0, key="C07/R1 %s byte-count-unchecked" % fn)
